@@ -479,6 +479,20 @@ def _viol_compile(res, pr, tag, errs, p, tdir, modifier=False):
         res["errors"].append(f"{tag}: shim/compile problem: {first.strip()[:300]}")
         return
     owner = TU_OWNER.get(tu.split(".")[0].replace("verif_cu_", ""))
+    if kind == "names" and owner == pr:
+        # an index macro cut in two (the undeclared name is a proper prefix of a declared macro): the statement itself
+        # is malformed -- a long term was broken inside an identifier -- which is this unit's subject, not a missing declaration
+        import re as _re
+
+        m = _re.search(r"undeclared identifier '(IDX_\w*)'", first)
+        try:
+            macros = p.macros(tdir)
+        except Exception:
+            macros = {}
+        if m and m.group(1) not in macros and any(k.startswith(m.group(1)) and k != m.group(1) for k in macros):
+            whole = sorted(k for k in macros if k.startswith(m.group(1)))[:3]
+            _viol(res, pr, f"{tag}:compile:{tu}:split-identifier", f"emitted {tu} is not valid C++: the index macro {whole[0]}... is cut in two ('{m.group(1)}' at a line end): {first.strip()[-160:]}", {"case": tag, "tu": tu, "stderr": err[-1500:], "replay_note": "the real compiler (clang++-14) rejects the emitted source"})
+            return
     if kind == "names" or owner != pr:
         res["notes"].append(f"{tag}: {tu} does not compile ({first.strip()[:160]}) -- judged by {'C10' if kind == 'names' else owner}; skipped here")
         _unk(res, pr, f"{tag}:compile", f"{tu} rejected by the compiler: {first.strip()[:160]}")
@@ -980,6 +994,10 @@ def _c03_target(case, p, meta, tdir, res, fex, jac, J, structural, q, NEQ, NNZ, 
             _csr_valid(case, res, q, rp, cv, NEQ, NNZ, tag, tdir)
         elif not structural:
             _unk(res, "C03", f"{tag}:csr", "CSR arrays not concrete")
+    # (b'') cusparse: two systems walked by one thread -- every system owns its own block of NNZ values: all 2*NNZ cells
+    #       are written, nothing outside, and the first block still holds the first system's values afterwards
+    if kind == "cusparse" and NNZ and jac is not None and not jac.compile_errors and getattr(jac, "data_vals", None):
+        _c03_two_blocks(case, p, tdir, res, jac, q, NEQ, NNZ, tag)
     # (b') the second evaluation on the same matrix (after SUNMatZero, as CVODE does before every evaluation) leaves
     #      the same CSR arrays and solver-equal values as the first
     if kind == "sparse" and NNZ and jac is not None and not jac.compile_errors:
@@ -1031,6 +1049,44 @@ def _c01_second_call(case, p, tdir, res, fex, q, NEQ, tag):
         else:
             _unk(res, "C01", f"{name}:ydot[{i}]", r)
             return
+
+
+def _c03_two_blocks(case, p, tdir, res, jac, q, NEQ, NNZ, tag):
+    name = f"{tag}:two-systems:block-layout"
+    try:
+        j2 = ode.run_jac(p, tdir, nsystem=2)
+    except Inconclusive as e:
+        _unk(res, "C03", name, str(e)[:200])
+        return
+    if j2.compile_errors or not getattr(j2, "data_vals", None) or len(j2.data_vals) != 2 * NNZ:
+        _unk(res, "C03", name, "two-system run not available")
+        return
+    bad = None
+    for cond, what in j2.oob:
+        r, _ = q.sat(cond)
+        if r != "unsat":
+            bad = f"the kernel accesses memory outside the 2 x NNZ values of a two-system batch: {what}"
+            break
+    if bad is None:
+        missing = [k for k, v in enumerate(j2.data_vals) if v is None]
+        if missing:
+            bad = f"value cells {missing[:6]}{'...' if len(missing) > 6 else ''} of the two-system batch (2 x NNZ = {2 * NNZ}) are never written"
+    if bad is None:
+        for k in range(NNZ):
+            a, b = j2.data_vals[k], jac.data_vals[k]
+            if a is None or b is None:
+                continue
+            r, m = q.differs(a, b)
+            if r == "sat":
+                bad = f"after the second system was evaluated, value {k} of the first system's block differs from the single-system evaluation (blocks overlap)"
+                break
+            if r != "unsat":
+                _unk(res, "C03", f"{name}:data[{k}]", r)
+                return
+    if bad:
+        _viol(res, "C03", name, f"cusparse JacKernel, two systems: {bad}", {"case": case.name, "target": tdir, "NNZ": NNZ, "NEQUATIONS": NEQ, "spec": _small_spec(case), "replay_note": "terms / events of the compiled JacKernel run by one thread over two systems"})
+    else:
+        _ok(res, "C03")
 
 
 def _c03_second_call(case, p, tdir, res, q, NEQ, NNZ, tag):
@@ -1160,6 +1216,12 @@ def _c04(case, p, meta, tdir, res, fex, q, slots, NS, tag):
         return ({} if s["is_electron"] else dict(s["element_count"])), s["charge"]
 
     elems = sorted({e for s in sp for e in counts(s)[0]})
+    unassigned = [s["name"] for s in sp if fex.ydot[slots[case.canon(s["name"])]] is None]
+    if unassigned:
+        # a derivative that is never written keeps whatever the integrator's buffer held: no total is conserved
+        _viol(res, "C04", f"{tag}:conserve:unassigned-derivative", f"the generated right-hand side never assigns the derivative of {unassigned[:4]}: the element and charge totals of the derivatives contain whatever the buffer held",
+              {"case": case.name, "target": tdir, "species": unassigned, "spec": _small_spec(case), "replay_note": "no store to these slots in the compiled right-hand side (the integrators do not clear the buffer)"})
+        return
     for e in elems + ["$charge"]:
         tot = z3.RealVal(0)
         for s in sp:
